@@ -313,6 +313,11 @@ func evalReaders(c *Case) *Verdict {
 	if st2.Steps > v.MaxSteps {
 		v.MaxSteps = st2.Steps
 	}
+	v.SitePert = map[string]int64{}
+	sitePertMap(st, v.SitePert)
+	sitePertMap(st2, v.SitePert)
+	v.count("map_visits", st.MapVisits+st2.MapVisits)
+	v.count("perturbed_visits_ge2", st.Perturbed2+st2.Perturbed2)
 	v.count("yields", st2.Yields)
 	v.count("context_switches", st2.Switches)
 	if st2.Switches > 0 {
